@@ -590,6 +590,8 @@ def main():
         try:
             if c.get("kind") == "probe":
                 out.append({"ok": probe()})
+            elif c.get("kind") == "history":            # write/read histories on one store object (c08_hist.py)
+                out.append({"ok": __import__("c08_hist").run_history(c, sys.modules[__name__])})
             elif c.get("kind") == "removal":
                 out.append({"ok": run_removal(c)})
             elif c.get("kind") == "modified":
